@@ -56,7 +56,8 @@ def spec(draw, n, depth, fn, herm_only):
     k = draw(st.sampled_from(kinds))
     seed = draw(st.integers(0, 10**6))
     if k in ("pd", "spsd"):
-        return {"k": k, "n": n, "seed": seed, "cplx": draw(st.booleans()), "declare": draw(st.sampled_from(["PSD", "SelfAdjoint", "none"]))}
+        return {"k": k, "n": n, "seed": seed, "cplx": draw(st.booleans()), "declare": draw(st.sampled_from(["PSD", "SelfAdjoint", "none"])),
+                "repeated": draw(st.integers(1, 3)) == 1}
     if k == "gen":
         return {"k": k, "n": n, "seed": seed, "cplx": draw(st.booleans())}
     if k in ("diag", "eye", "smul"):
@@ -110,6 +111,8 @@ def build(s):
         n = s["n"]
         rng = np.random.default_rng(s["seed"])
         lam = 0.5 + 3.5 * rng.random(n)
+        if s.get("repeated"):  # repeated eigenvalues with a rotated (not axis-aligned) eigenspace
+            lam = rng.choice(np.array([0.75, 2.0, 3.5]), size=n)
         if k == "spsd":
             lam[: max(1, n // 3)] = 0.0
         M, Q = KR.hermitian(lam, s["seed"], s["cplx"])
